@@ -134,7 +134,10 @@ class PixCoord:
         `np.testing.assert_allclose` with its default tolerance values.
         """
         if isinstance(other, self.__class__):
-            return np.allclose([self.x, self.y], [other.x, other.y])
+            # compare x with x and y with y (stacking them would broadcast
+            # an array coordinate against the (x, y) pair of a scalar one)
+            return (np.allclose(self.x, other.x)
+                    and np.allclose(self.y, other.y))
         return False
 
     def to_sky(self, wcs, origin=_DEFAULT_WCS_ORIGIN, mode=_DEFAULT_WCS_MODE):
